@@ -56,6 +56,26 @@ def check_case(ctx, cs):
         ok, r = _try(ctx, cname + ".evaluate_single", tg, small, lambda: obj.evaluate_single(arg))
         if ok and not close_seq(r, exp):
             ctx.violate(cname + ".evaluate_single", tg, small, {"expected": fl(exp), "got": r})
+        # the same definition reached on other construction paths: the bisection span search option; and, for rational shapes,
+        # the setters in the order "some unweighted points, the weights, the final unweighted points" on one object
+        from geomdl import helpers as _helpers
+        ok, ob = _try(ctx, cname + ".build", tg + ["find_span_func=binsearch"], small, lambda: build(sh, span_func=_helpers.find_span_binsearch))
+        if ok:
+            ok, r = _try(ctx, cname + ".evaluate_single", tg + ["find_span_func=binsearch"], small, lambda: ob.evaluate_single(arg))
+            if ok and not close_seq(r, exp):
+                ctx.violate(cname + ".evaluate_single", tg + ["find_span_func=binsearch"], small, {"expected": fl(exp), "got": r})
+        if sh["rat"]:
+            def by_setters():
+                o2 = build(sh)
+                W = [float(fr(q[-1])) for q in sh["P"]]
+                Pu = [[float(fr(x)) / w for x in q[:-1]] for q, w in zip(sh["P"], W)]
+                o2.ctrlpts = [[c + 1.0 + i for c in q] for i, q in enumerate(Pu)]      # some other net first
+                o2.weights = list(W)
+                o2.ctrlpts = Pu
+                return o2.evaluate_single(arg), o2.evaluate_list([arg])[0]
+            ok, r = _try(ctx, cname + ".evaluate_single", tg + ["built_by_setters"], small, by_setters)
+            if ok and not (close_seq(r[0], exp) and close_seq(r[1], exp)):
+                ctx.violate(cname + ".evaluate_single", tg + ["built_by_setters"], small, {"expected": fl(exp), "got": r[0]})
         ok, r = _try(ctx, cname + ".evaluate_list", tg, small, lambda: obj.evaluate_list([arg]))
         if ok and not close_seq(r, [exp]):
             ctx.violate(cname + ".evaluate_list", tg, small, {"expected": [fl(exp)], "got": r})
@@ -109,6 +129,26 @@ def check_case(ctx, cs):
             if not close_seq(pts, exp):
                 bad = [i for i, (a, b) in enumerate(zip(pts, exp)) if not close_seq(a, b)]
                 ctx.violate(site, tg + ["grid_points"], small, {"first_bad_index": bad[0], "expected": fl(exp[bad[0]]), "got": pts[bad[0]], "n_bad": len(bad)})
+            if how == "sample_size":
+                # a sub-range is sampled, then the whole domain again by the argument-free call: the full grid is back
+                def again():
+                    dom = [obj.domain] if pd == 1 else list(obj.domain)
+                    nm = ["start", "stop"] if pd == 1 else None
+                    kw = {}
+                    for d_, (lo_, hi_) in enumerate(dom):
+                        mid = (lo_ + hi_) / 2.0
+                        if pd == 1:
+                            kw = {"start": mid, "stop": hi_}
+                        else:
+                            kw["start_" + "uvw"[d_]] = mid
+                            kw["stop_" + "uvw"[d_]] = hi_
+                    obj.evaluate(**kw)
+                    part = len(obj.evalpts)
+                    obj.evaluate()
+                    return part, [list(q) for q in obj.evalpts]
+                ok, r2 = _try(ctx, cname + ".evaluate", tg + ["after_subrange"], small, again)
+                if ok and not (r2[0] == o["n"] and close_seq(r2[1], exp)):
+                    ctx.violate(cname + ".evaluate", tg + ["after_subrange"], small, {"expected_first": fl(exp[0]), "got_first": r2[1][0] if r2[1] else None, "n": len(r2[1])})
             ok, ssz = _try(ctx, site, tg, small, lambda: obj.sample_size)
             if ok:
                 got = [ssz] if pd == 1 else list(ssz)
